@@ -83,7 +83,21 @@ def translate(repo):
             "elif msg == consts.MSG_REPLY:\n    obj = self._unbox(args)\n    self._seq_request_callback(msg, seq, False, obj)\n"
             "elif msg == consts.MSG_EXCEPTION:\n    obj = self._unbox_exc(args)\n    self._seq_request_callback(msg, seq, True, obj)\n"
             "else:\n    raise ValueError('invalid message type: %r' % (msg,))")
-    items.append(typed("dispatch_routing_is_standard", "bool", coq_bool(lad == want)))
+    # repaired tree: both response branches go through _dispatch_response, which turns a payload that cannot be rebuilt here into
+    # an exception for the request it answers (EOFError excepted) and then looks the callback up exactly as before
+    want2 = ("if msg == consts.MSG_REQUEST:\n    self._dispatch_request(seq, args)\n"
+             "elif msg == consts.MSG_REPLY:\n    self._dispatch_response(msg, seq, False, args)\n"
+             "elif msg == consts.MSG_EXCEPTION:\n    self._dispatch_response(msg, seq, True, args)\n"
+             "else:\n    raise ValueError('invalid message type: %r' % (msg,))")
+    guarded_resp = False
+    if lad == want2:
+        dr = [u(x) for x in strip_doc(find_func(cls, "_dispatch_response").body)]
+        if dr != ["try:\n    obj = self._unbox_exc(args) if is_exc else self._unbox(args)\nexcept EOFError:\n    raise\nexcept Exception:\n    is_exc, obj = (True, sys.exc_info()[1])",
+                  "self._seq_request_callback(msg, seq, is_exc, obj)"]:
+            raise Unrecognised("_dispatch_response: " + repr(dr))
+        guarded_resp = True
+    items.append(typed("dispatch_routing_is_standard", "bool", coq_bool(lad == want or guarded_resp)))
+    items.append(typed("response_decode_guarded", "bool", coq_bool(guarded_resp)))
     cb = [u(x) for x in strip_doc(find_func(cls, "_seq_request_callback").body)]
     items.append(typed("callback_popped_then_called", "bool", coq_bool(
         cb[0] == "_callback = self._request_callbacks.pop(seq, None)" and cb[1].startswith("if _callback is not None:\n    _callback(is_exc, obj)"))))
